@@ -40,7 +40,9 @@ def tzOut : Option Int → Json
 def evalIn (j : Json) : EVal :=
   match obj? j "int" with
   | some i => .int (bigInt i)
-  | none => .str (cps (fld j "str"))
+  | none => match obj? j "tuple" with
+    | some xs => .tuple ((arr! xs).map bigInt)
+    | none => .str (cps (fld j "str"))
 
 instance : Inhabited Ty := ⟨.none⟩
 instance : Inhabited Val := ⟨.none⟩
@@ -222,6 +224,9 @@ def mkPrims (t : Json) : Prims :=
     uuidOfStr := fun s => match look "uuidOfStr" (cpsOut s) with
       | some n => if isNull n then none else some (bigNat n)
       | none => P0.uuidOfStr s
+    floatParses := fun s => match look "floatParses" (cpsOut s) with
+      | some b => bool! b
+      | none => P0.floatParses s
     utf8Decode := fun b =>
       match look "utf8Decode" (Json.arr (b.map fun x => Json.num x.toNat).toArray) with
       | some s => cps s | none => P0.utf8Decode b }
@@ -245,6 +250,7 @@ def handle (j : Json) : Json :=
     ("echo", valOut x),
     ("inDomain", Json.bool (inDomain cfg 0 T x)),
     ("setOfContainers", Json.bool T.setOfContainers),
+    ("declChecked", Json.bool (match T with | .data fs _ => declChecked (fs.map (·.1)) | _ => true)),
     ("hasInf", Json.bool x.hasInf),
     ("enc", Json.str (resTag enc))]
   match enc with
